@@ -322,7 +322,7 @@ func runAttackCmd(t *simrt.Tape, keep bool, prop string) simrt.Outcome {
 	}()
 	select {
 	case <-finished:
-	case <-time.After(20 * time.Second):
+	case <-simrt.After20s():
 		// -timeout=5s bounds every exchange, the attack itself lasts well under a second
 		r.fail(prop+".cmd-never-ends", map[string]string{"nominimise": "1"}, "%s: the command has not returned 20 s after it was started (request timeout 5s): a hit never yields its result", cmdline)
 		return r.outcome(nil, true)
